@@ -65,6 +65,7 @@ def run_shard(shard):
             if shard[1] == 0:
                 symlink_family(st, wd)
                 new_target_family(st, wd)
+                later_document_family(st, wd)
         elif shard[0] == "save":
             save_faults(st, wd, shard[1], shard[2], pairs=False)
         else:
@@ -116,6 +117,49 @@ def symlink_family(st, wd):
                 elif after.get("real.yaml") == doc.encode():
                     st.fail("%s|symlink-target|nothing-written" % tool, case,
                             "the real file edited", "unchanged")
+    reset(wd, {})
+
+
+def later_document_family(st, wd):
+    """Several result documents (merge_across / matrix_merge on a multi-
+    document target) of which a LATER one cannot be presented as JSON: the
+    run fails before writing, so neither the target nor a backup is touched."""
+    target = "a: 1\n---\nb: 2\n"
+    for mode in ("merge_across", "matrix_merge"):
+        for rhs, cause in (("x: 1\n---\n1: a\n'1': b\n",
+                            "result-later-document-unpresentable-as-json"),
+                           ("x: 1\n---\n? [p, q]\n: v\n",
+                            "result-later-document-key-unpresentable")):
+            if mode == "matrix_merge":
+                # (every left document receives every right document)
+                rhs = rhs.split("---\n")[1]
+                tgt = "a: 1\n---\nb: 2\n"
+            else:
+                tgt = target
+            for backup in (False, True):
+                for stale in (False, True):
+                    files = {"target.yaml": tgt, "rhs.yaml": rhs}
+                    if stale:
+                        files["target.yaml.bak"] = STALE
+                    reset(wd, files)
+                    before = snapshot(wd)
+                    argv = ["--multi-doc-mode=" + mode,
+                            "--document-format=json", "--nostdin",
+                            "--overwrite=" + os.path.join(wd, "target.yaml")]
+                    if backup:
+                        argv.append("--backup")
+                    argv += [os.path.join(wd, "target.yaml"),
+                             os.path.join(wd, "rhs.yaml")]
+                    res = cli.run("yaml-merge", argv, cwd=wd)
+                    if res.code == 0 and res.exc is None:
+                        st.extra["result_presentable_after_all"] += 1
+                        continue
+                    judge_refusal(st, "yaml-merge", cause, res, before,
+                                  snapshot(wd), {"doc": tgt, "rhs": rhs,
+                                                 "argv": argv[:2],
+                                                 "backup": backup,
+                                                 "stale_bak": stale,
+                                                 "later_document": True})
     reset(wd, {})
 
 
@@ -443,7 +487,11 @@ def one_fault(st, wd, tool, argv, base, tname, original, stale, k, kind,
 def replay(case):
     st = core.Stats(None)
     with cli.workdir("vkit-c17-") as wd:
-        if case.get("symlink"):
+        if case.get("later_document"):
+            later_document_family(st, wd)
+        elif case.get("new_target"):
+            new_target_family(st, wd)
+        elif case.get("symlink"):
             symlink_family(st, wd)
         elif case.get("cause"):
             for di in range(len(DOCS)):
